@@ -27,7 +27,7 @@ ANCHORS = ['array:delete_array', 'raggedarray:delete_raggedarray', 'datadir:crea
            'raggedarray:RaggedArray.copy', 'datadir:DataDir.archive', 'utils:write_jsonfile']
 REQUIRED = ['mon.foreign_survives', 'mon.delete_oserror', 'mon.wrongkind_typeerror', 'mon.nothing_remains',
             'mon.overwrite_false_unchanged', 'mon.overwrite_true_keeps_foreign']
-MIN_NONTRIVIAL = {'quick': 150, 'thorough': 150}
+MIN_NONTRIVIAL = {'quick': 800, 'thorough': 800}
 
 FOREIGN = ['file', 'nesteddir', 'symlink_file', 'symlink_dir', 'dir_named_metadata', 'file_in_dir_named_like_darr',
            'file_named_like_other_kind']
@@ -54,6 +54,24 @@ def cases(tier, seed):
         for occ in OCCUPANTS:
             for ow in (False, True):
                 yield {'m': 'create', 'creator': creator, 'occupant': occ, 'overwrite': ow}
+    if True:   # (both tiers: the whole matrix costs ~10 s)
+        # one foreign kind at a time, each location, both path forms
+        for creator in CREATORS:
+            for occ in ('array_md', 'ragged', 'foreigndir', 'smaller'):
+                for fk in FOREIGN:
+                    for form in ('str', 'Path'):
+                        for ow in (False, True):
+                            yield {'m': 'create', 'creator': creator, 'occupant': occ, 'overwrite': ow,
+                                   'single_foreign': fk, 'pathform': form}
+        for kind in ('Array', 'RaggedArray'):
+            locs = ['top'] if kind == 'Array' else ['top', 'values', 'indices']
+            for form in FORMS:
+                for loc in locs:
+                    for fk in FOREIGN:
+                        for fk2 in ('file', 'symlink_dir'):
+                            if fk2 != fk:
+                                yield {'m': 'delete', 'kind': kind, 'foreign': fk, 'loc': loc, 'form': form,
+                                       'second_foreign': fk2, 'nometa': True}
 
 
 def mkarray(D, p, n=4, md=None):
@@ -132,7 +150,7 @@ def run_delete(case, env, res, parent, outside):
     kind = case['kind']
     h = (mkarray(D, p, md={'m': 1}) if kind == 'Array' else mkragged(D, p, md={'m': 1}))
     fk = case['foreign']
-    if fk == 'dir_named_metadata':
+    if fk == 'dir_named_metadata' or case.get('nometa'):
         # needs an array without metadata so that the name is free
         shutil.rmtree(p)
         h = mkarray(D, p) if kind == 'Array' else mkragged(D, p)
@@ -143,6 +161,8 @@ def run_delete(case, env, res, parent, outside):
     if fk:
         where = p if case['loc'] == 'top' else p / case['loc']
         add_foreign(where, outside, fk)
+        if case.get('second_foreign'):
+            add_foreign(p, outside, case['second_foreign'])
     before_t, before_o, before_p = snapshot(p), snapshot(outside), snapshot(parent)
     arg = {'object': h, 'str': str(p), 'Path': Path(p)}[case['form']]
     func = D.delete_array if kind == 'Array' else D.delete_raggedarray
@@ -244,7 +264,15 @@ def run_create(case, env, res, parent, outside):
         p.mkdir()
         (p / 'thesis.tex').write_text('irreplaceable')
     foreign_names = []
-    if p.is_dir():
+    if p.is_dir() and case.get('single_foreign'):
+        fk1 = case['single_foreign']
+        if not (fk1 == 'dir_named_metadata' and (p / 'metadata.json').exists()):
+            add_foreign(p, outside, fk1)
+        else:
+            add_foreign(p, outside, 'file')
+        if (p / 'indices').is_dir() and fk1 != 'dir_named_metadata':
+            add_foreign(p / 'indices', outside, fk1 if fk1 != 'file_named_like_other_kind' else 'nesteddir')
+    elif p.is_dir():
         add_foreign(p, outside, 'file')
         add_foreign(p, outside, 'nesteddir')
         add_foreign(p, outside, 'symlink_file')
@@ -255,6 +283,8 @@ def run_create(case, env, res, parent, outside):
     before_parent, before_o = snapshot(parent), snapshot(outside)
     before_t = snapshot(p)
     raised = None
+    pth = p if case.get('pathform') == 'Path' else str(p)
+    p_orig, p = p, pth
     try:
         if creator == 'asarray':
             D.asarray(p, np.arange(6, dtype='float64'), overwrite=ow, metadata=None)
@@ -292,8 +322,9 @@ def run_create(case, env, res, parent, outside):
             src.archive(filepath=str(p), compressiontype='xz', overwrite=ow)
     except Exception as e:
         raised = e
+    p = p_orig
     after_parent, after_o, after_t = snapshot(parent), snapshot(outside), snapshot(p)
-    cell = f'{creator}(overwrite={ow}) on path occupied by {occ}'
+    cell = f'{creator}(overwrite={ow}) on path occupied by {occ}' + (f' with foreign {case["single_foreign"]}' if case.get('single_foreign') else '')
     res.dim('create_cell', f'{creator}:{occ}:{ow}')
     if after_o != before_o:
         res.fail(f'create:link-target-damaged:{creator}', f'{cell}: {snapdiff(before_o, after_o)}', **case)
